@@ -104,7 +104,8 @@ class Proc:
     def __init__(self, key, params, source=None, requires=None, ensures=None, raises=None, modifies=(),
                  loops=None, locals=None, calls=None, globals=None, result=OBJ, varargs=None,
                  defaults=None, trusted=False, note='', classname=None, finite=None, attr_alias=None,
-                 opaque_calls=None, pure=False, ghost_pre=None, dynattr=None, setattr_=None, on_entry=None, pure_fn=None, may_raise=()):
+                 opaque_calls=None, pure=False, ghost_pre=None, dynattr=None, setattr_=None, on_entry=None, pure_fn=None, may_raise=(),
+                 not_assumed=()):
         self.key = key
         self.source = source          # 'ro.py:C3._merge' or None (assumed contract)
         self.params = list(params)    # [(name, Ty)]
@@ -132,6 +133,8 @@ class Proc:
         self.may_raise = tuple(may_raise)   # exception classes whose absence is NOT claimed (no obligation on those exits)
         self.pure_fn = pure_fn        # for side-effect-free total callees: Ctx -> z3 term of the result (no assumptions needed)
         self.on_entry = on_entry      # ghost statement executed when the body is entered: f(exec, state)
+        self.not_assumed = tuple(not_assumed)   # labels of ensures clauses that are NOT proved on the current tree (recorded
+        #                                         findings): stated and checked, but never assumed at call sites
 
 
 class Registry:
